@@ -210,6 +210,10 @@ class _Parser:
             self.eat("break")
             self.eat(";")
             return ("break", line)
+        if self.at("continue"):
+            self.eat("continue")
+            self.eat(";")
+            return ("continue", line)
         if self.at("return"):
             self.eat("return")
             e = self.expr()
@@ -257,7 +261,8 @@ class _Parser:
         if self.at("="):
             self.eat("=")
             rhs = self.expr()
-            self.eat(";")
+            if not self.at("}"):          # `x = match .. { .. }` may end a block without `;`
+                self.eat(";")
             return ("assign", e, "=", rhs, line)
         if self.at("+=") or self.at("-="):
             op = self.peek().text
@@ -345,8 +350,16 @@ class _Parser:
         return e
 
     def cmp_expr(self, ns):
-        e = self.unary(ns)
+        e = self.add_expr(ns)
         if self.at("==") or self.at("!=") or self.at("<") or self.at(">") or self.at("<=") or self.at(">="):
+            op = self.peek()
+            self.i += 1
+            e = ("bin", op.text, e, self.add_expr(ns), op.line)
+        return e
+
+    def add_expr(self, ns):
+        e = self.unary(ns)
+        while self.at("+") or self.at("-"):
             op = self.peek()
             self.i += 1
             e = ("bin", op.text, e, self.unary(ns), op.line)
@@ -365,7 +378,13 @@ class _Parser:
 
     def postfix(self, ns):
         e = self.primary(ns)
-        while self.at("."):
+        while self.at(".") or self.at("["):
+            if self.at("["):
+                line = self.eat("[").line
+                idx = self.expr()
+                self.eat("]")
+                e = ("index", e, idx, line)
+                continue
             line = self.eat(".").line
             if self.peek().kind == "num":
                 e = ("field", e, self.peek().text, line)
@@ -387,6 +406,8 @@ class _Parser:
 
     def primary(self, ns):
         tok = self.peek()
+        if tok.text == "match":
+            return self.match_node()
         if tok.text == "|":
             # closure `|x| EXPR` (argument of `.any` / `.all` / `.find`)
             self.eat("|")
@@ -428,7 +449,14 @@ class _Parser:
             if len(path) > 1:
                 if self.at("("):
                     self.eat("(")
+                    args = []
+                    while not self.at(")"):
+                        args.append(self.expr())
+                        if self.at(","):
+                            self.eat(",")
                     self.eat(")")
+                    if args:
+                        return ("pathcallargs", "::".join(path), args, tok.line)
                     return ("pathcall", "::".join(path), tok.line)
                 return ("path", "::".join(path), tok.line)
             if path[0] == "Some" and self.at("("):
@@ -481,6 +509,12 @@ def _trace_shapes():
     for fn in ["add_unit_id_with_target", "override_unit_id_with_target"]:
         shapes.add(_norm(
             "if let Some ( trace ) = unit_trace { if let Some ( id ) = self . id . clone ( ) "
+            "{ trace . add_value_computed_by_unit ( & id , & self . inner_content ) ; "
+            "if let Some ( target_hash ) = self . target_hash . clone ( ) "
+            f"{{ trace . {fn} ( target_hash . as_str ( ) , id . as_str ( ) ) ; }} else {{ trace . add_unit_id ( id ) ; }} }} }}"))
+    for fn in ["add_unit_id_with_target", "override_unit_id_with_target"]:
+        shapes.add(_norm(
+            "if let Some ( trace ) = unit_trace { if let Some ( id ) = self . id . clone ( ) "
             f'{{ trace . {fn} ( "text" , id . as_str ( ) ) ; }} }}'))
     return shapes
 
@@ -510,10 +544,11 @@ def _canon_binders(t):
 
 def _trace_norm2(text, renames):
     """`_trace_norm`, with the locals of the function replaced by their canonical names and pattern binders canonicalised"""
-    t = _norm(text)
-    for rust, canon in renames.items():
-        t = re.sub(r"(?<![A-Za-z0-9_.])" + re.escape(rust) + r"(?![A-Za-z0-9_])", canon, t)
-    return _canon_binders(_trace_norm(t))
+    parts = re.split(r'("(?:\\.|[^"\\])*")', _norm(text))        # string literals are left alone
+    for i in range(0, len(parts), 2):
+        for rust, canon in renames.items():
+            parts[i] = re.sub(r"(?<![A-Za-z0-9_.])" + re.escape(rust) + r"(?![A-Za-z0-9_])", canon, parts[i])
+    return _canon_binders(_trace_norm("".join(parts)))
 
 
 # the unit-trace blocks of src/action/mod.rs (locals under their canonical names: i1 = the applied rule id, s1 = the
@@ -525,6 +560,10 @@ def _action_trace_shapes():
         "{ trace . add_unit_id_with_target ( target_hash . as_str ( ) , unit_id . as_str ( ) ) ; } }",
         "if let ( Some ( trace ) , Some ( unit_id ) ) = ( unit_trace , & s1 . unit_id ) "
         '{ trace . add_unit_id_with_target ( "configuration::log" , unit_id ) ; }',
+        "if let ( Some ( trace ) , Some ( unit_id ) ) = ( unit_trace . as_deref_mut ( ) , & o2 ) "
+        '{ trace . add_unit_id_with_target ( "configuration::reset" , unit_id . as_str ( ) ) ; }',
+        "if let ( Some ( trace ) , Some ( unit_id ) ) = ( unit_trace . as_deref_mut ( ) , & o2 ) "
+        '{ trace . add_unit_id_with_target ( "configuration::stop" , unit_id . as_str ( ) ) ; }',
     ]
 
 
@@ -560,6 +599,9 @@ class _Tr:
         self.counters = {}
         self.header_vars = set()       # variables bound to a header (loop / closure variables over a header list)
         self.int_vars = set()          # variables that are decremented somewhere: signed
+        self.value_depth = 0           # > 0 inside a `match` used as a value: no `return` there
+        self.k_continue = None         # inside a `for`: the text of "go on with the next element"
+        self.loop_return = False       # inside a `for` whose result is the function's result: `return E` = E
         for rust, lean in cfg.get("args", {}).items():
             self.scope[rust] = lean
         for rust, ty in cfg.get("mutable_args", {}).items():
@@ -576,11 +618,12 @@ class _Tr:
 
     _PREFIX = {"Bool": "b", "Nat": "n", "Int": "z", "List Char": "cs", "List Nat": "bytes", "Char": "c",
                "List (String × String)": "hs", "String × String": "h",
-               "σ": "s", "ι": "i", "κ": "k", "α": "a", "β": "a"}
+               "σ": "s", "ι": "i", "κ": "k", "α": "a", "β": "a", "ρ": "r", "φ": "f", "τ": "t", "υ": "u"}
 
     def fresh(self, ty):
         """canonical Lean name of a new local: the names of the source are free (alpha-renaming changes nothing)"""
-        pre = self._PREFIX.get(ty, "o" if ty.startswith("Option ") else "v")
+        pre = self._PREFIX.get(ty, "o" if ty.startswith("Option ") else "g" if ty.startswith("Gen") else
+                               "xs" if ty.startswith("List ") else "v")
         self.counters[pre] = self.counters.get(pre, 0) + 1
         return f"{pre}{self.counters[pre]}"
 
@@ -599,11 +642,54 @@ class _Tr:
             r[self.cfg["trace_arg"]] = "unit_trace"
         return r
 
+    def struct_of_type(self, ty):
+        for rust, sd in self.cfg.get("structs", {}).items():
+            if sd["lean"] == ty:
+                return rust, sd
+        return None, None
+
     def infer(self, e, name=None):
         k = e[0]
         ab = self.cfg.get("abstract", {}).get(_ast_text(e))
         if ab:
             return ab[1]
+        if k == "field" and not (e[1][0] == "var" and e[1][1] == "self"):
+            try:
+                bt = self.infer(e[1])
+            except _Fail:
+                bt = None
+            _, sd = self.struct_of_type(bt) if bt else (None, None)
+            if sd and e[2] in sd["fields"]:
+                return sd["fields"][e[2]][1]
+        if k == "some":
+            t = self.infer(e[1], name)
+            return f"Option ({t})" if " " in t else f"Option {t}"
+        if k == "struct" and e[1] in self.cfg.get("structs", {}):
+            return self.cfg["structs"][e[1]]["lean"]
+        if k == "pathcall" and e[1] in self.cfg.get("path_consts", {}):
+            return self.cfg["path_consts"][e[1]][1]
+        if k == "pathcallargs" and e[1] in self.cfg.get("path_calls", {}) and len(self.cfg["path_calls"][e[1]][1]) == 1:
+            return self.cfg["path_calls"][e[1]][1][0]
+        if k == "var" and e[1] == "None" and name and self.cfg.get("none_type"):
+            return self.cfg["none_type"]
+        if k == "call" and e[2] in ("is_empty",):
+            return "Bool"
+        if k == "index":
+            t = self.infer(e[1], name)
+            if t.startswith("List "):
+                return self.opt_inner("Option " + t[len("List "):])
+        if k == "call" and e[2] == "len" and not e[3]:
+            return "Nat"
+        if k == "call" and e[2] == "unwrap" and not e[3]:
+            t = self.infer(e[1], name)
+            if t.startswith("Option "):
+                return self.opt_inner(t)
+        if k == "bin" and e[1] in ("+", "-"):
+            return "Nat"
+        if k == "tuple":
+            return "tuple"
+        if k == "call" and e[2] in ("as_slice", "iter", "into_iter") and not e[3]:
+            return self.infer(e[1], name)
         if k == "ref":
             return self.infer(e[1], name)
         if k == "call" and e[2] in ("as_ref", "as_deref", "to_string", "to_owned", "as_str") and not e[3]:
@@ -668,6 +754,13 @@ class _Tr:
                 if name not in self.cfg["self_fields"]:
                     self.fail(f"`self.{name}` is not a modelled field", line)
                 return self.cfg["self_fields"][name]
+            try:
+                bt = self.infer(base)
+            except _Fail:
+                bt = None
+            _, sd = self.struct_of_type(bt) if bt else (None, None)
+            if sd and name in sd["fields"]:
+                return f"{self.atom(base)}.{sd['fields'][name][0]}"
             if base[0] == "var" and base[1] in self.header_vars and base[1] in self.scope:
                 if name == "name":
                     return self.scope[base[1]] + ".1"
@@ -699,12 +792,21 @@ class _Tr:
                 self.scope, self.header_vars = saved, saved_h
                 fn = {"any": "any", "all": "all", "find": "find?"}[name]
                 return f"{self.scope[lst[1]]}.{fn} (fun {lv} => {b})"
-            if name in ("as_ref", "as_deref") and not args:
+            if name in ("as_ref", "as_deref", "as_slice") and not args:
                 return self.expr(base)
+            if name == "is_empty" and not args and self.infer(base).startswith("List "):
+                return f"{self.atom(base)}.isEmpty"
             if name in ("to_string", "to_owned", "as_str") and not args:
-                if self.infer(base) != "ι":
-                    self.fail(f"`.{name}()` only on an id (a `String`)", line)
+                if self.infer(base) not in ("ι", "List Nat"):
+                    self.fail(f"`.{name}()` only on a `String`", line)
                 return self.expr(base)
+            if name == "len" and not args and self.infer(base).startswith("List "):
+                return f"{self.atom(base)}.length"
+            if name == "unwrap" and not args:
+                t = self.infer(base)
+                if t not in self.cfg.get("unwrap_default", {}):
+                    self.fail("`.unwrap()` only on an `Option` with a modelled default", line)
+                return f"{self.atom(base)}.getD {self.cfg['unwrap_default'][t]}"
             if name == "unwrap_or" and len(args) == 1:
                 if not self.infer(base).startswith("Option "):
                     self.fail("`.unwrap_or(..)` only on an `Option`", line)
@@ -714,16 +816,35 @@ class _Tr:
             if name in self.cfg.get("extern_calls", {}):
                 fn, ret, recv = self.cfg["extern_calls"][name]
                 if len(ret) == 1 and self.infer(base) == recv:
-                    return f"{fn} {self.atom(base)} " + " ".join(self.atom(a) for a in args)
+                    return (f"{fn} {self.atom(base)} " + " ".join(self.atom(a) for a in args)).strip()
             if name in ("is_some", "is_none") and not args:
                 return f"{self.atom(base)}.{'isSome' if name == 'is_some' else 'isNone'}"
             self.fail(f"method `.{name}(..)` is not in the subset", line)
+        if k == "pathcallargs":
+            if e[1] in self.cfg.get("path_calls", {}) and len(self.cfg["path_calls"][e[1]][1]) == 1:
+                fn, ret, nargs = self.cfg["path_calls"][e[1]]
+                for extra in e[2][nargs:]:
+                    if _ast_text(extra) not in self.cfg.get("dropped_args", ()):
+                        self.fail("extra argument of the call is not one of the arguments the parameter closes over", e[3])
+                if len(e[2]) < nargs:
+                    self.fail("too few arguments in the call", e[3])
+                return f"{fn} " + " ".join(self.atom(a) for a in e[2][:nargs])
+            self.fail(f"call `{e[1]}(..)` is not in the subset", e[3])
         if k == "pathcall":
+            if e[1] in self.cfg.get("path_consts", {}):
+                return self.cfg["path_consts"][e[1]][0]
             if e[1] == "Vec::new":
                 return "[]"
             self.fail(f"call `{e[1]}()` is not in the subset", e[2])
         if k == "struct":
             _, name, fields, line = e
+            if name in self.cfg.get("structs", {}):
+                sd = self.cfg["structs"][name]
+                if sorted(f for f, _ in fields) != sorted(sd["fields"]):
+                    self.fail(f"`{name} {{ .. }}` does not give exactly the modelled fields", line)
+                vals = {f: self.expr(v) for f, v in fields}
+                inner = ", ".join(f"{sd['fields'][f][0]} := {vals[f]}" for f in sd["fields"])     # declaration order
+                return f"({{ {inner} }} : {sd['lean']})"
             if name != "Header" or [f for f, _ in fields] != ["name", "value"]:
                 self.fail("only `Header { name: .., value: .. }` literals are in the subset", line)
             return f"({self.expr(fields[0][1])}, {self.expr(fields[1][1])})"
@@ -743,6 +864,17 @@ class _Tr:
             return f"!{self.atom(e[1])}"
         if k == "ref":
             return self.expr(e[1])
+        if k == "index":
+            _, base, idx, line = e
+            t = self.infer(base)
+            if not t.startswith("List ") or t not in self.cfg.get("index_default", {}):
+                self.fail("indexing only into a modelled list with a default", line)
+            return f"({self.atom(base)}[{self.expr(idx)}]?).getD {self.cfg['index_default'][t]}"
+        if k == "bin" and e[1] in ("+", "-"):
+            _, op, a, b, line = e
+            if op == "-":
+                self.fail("subtraction in an expression is not in the subset", line)
+            return f"{self.atom(a)} + {self.atom(b)}"
         if k == "bin":
             _, op, a, b, line = e
             if op in ("==", "!="):
@@ -789,9 +921,11 @@ class _Tr:
                 add(self.lvalue(st[1]))
             elif k == "expr":
                 e = st[1]
-                if e[0] == "call" and e[2] in ("push", "extend"):
+                if e[0] == "call" and e[2] in ("push", "extend", "push_str"):
                     add(self.lvalue(e[1]))
                 if e[0] == "call" and e[2] == "insert" and self.cfg.get("set_insert"):
+                    add(self.lvalue(e[1]))
+                if e[0] == "call" and e[2] in self.cfg.get("mut_calls", {}):
                     add(self.lvalue(e[1]))
             elif k == "iflet":
                 if st[3] is not None and _trace_norm2(st[1], self.renames()) not in _TRACE_SHAPES2:
@@ -831,7 +965,10 @@ class _Tr:
         stmts, tail = block
         for st in stmts + ([tail] if tail is not None and tail[0] == "if" else []):
             k = st[0]
-            if k in ("break", "return", "letmacro"):
+            if k in ("break", "return", "letmacro", "continue"):
+                return True
+            if k == "iflet" and st[3] is not None and _trace_norm2(st[1], self.renames()) not in _TRACE_SHAPES2 \
+                    and _trace_norm(st[1]) not in _TRACE_SHAPES and self.escapes(st[3][2]):
                 return True
             if k == "if":
                 if self.escapes(st[2]) or (st[3] and self.escapes(st[3])):
@@ -879,12 +1016,21 @@ class _Tr:
             return [pad + f"let ({lean}, st) := {fn} st {vals}"] + self.seq(rest, tail, k_end, k_break, ind)
         if k == "lettuple":
             _, names, e, line = st
-            if e[0] != "call" or e[2] not in self.cfg.get("extern_calls", {}):
-                self.fail("tuple `let` only from a known external call", line)
-            fn, ret, recv = self.cfg["extern_calls"][e[2]]
-            if len(ret) != len(names) or self.infer(e[1]) != recv:
-                self.fail("tuple `let`: arity / receiver of the external call differ from the modelled ones", line)
-            call = f"{fn} {self.atom(e[1])} " + " ".join(self.atom(a) for a in e[3])
+            if e[0] == "pathcallargs" and e[1] in self.cfg.get("path_calls", {}):
+                fn, ret, nargs = self.cfg["path_calls"][e[1]]
+                for extra in e[2][nargs:]:
+                    if _ast_text(extra) not in self.cfg.get("dropped_args", ()):
+                        self.fail("extra argument of the call is not one of the arguments the parameter closes over", line)
+                if len(ret) != len(names) or len(e[2]) < nargs:
+                    self.fail("tuple `let`: arity of the call differs from the modelled one", line)
+                call = f"{fn} " + " ".join(self.atom(a) for a in e[2][:nargs])
+            else:
+                if e[0] != "call" or e[2] not in self.cfg.get("extern_calls", {}):
+                    self.fail("tuple `let` only from a known external call", line)
+                fn, ret, recv = self.cfg["extern_calls"][e[2]]
+                if len(ret) != len(names) or self.infer(e[1]) != recv:
+                    self.fail("tuple `let`: arity / receiver of the external call differ from the modelled ones", line)
+                call = f"{fn} {self.atom(e[1])} " + " ".join(self.atom(a) for a in e[3])
             leans = []
             for n, ty in zip(names, ret):
                 lean = self.fresh(ty)
@@ -926,6 +1072,11 @@ class _Tr:
             _, lhs, op, rhs, line = st
             x = self.lvalue(lhs)
             xl = self.lean_of(x)
+            if op == "=" and rhs[0] == "match":
+                self.value_depth += 1
+                ml = self.match_lines(rhs, lambda v: v, None, ind + 1)
+                self.value_depth -= 1
+                return [pad + f"let {xl} :="] + ml + self.seq(rest, tail, k_end, k_break, ind)
             val = self.expr(rhs)
             if op == "=":
                 new = val
@@ -939,9 +1090,25 @@ class _Tr:
             if e[0] == "call" and e[2] == "push" and len(e[3]) == 1:
                 x = self.lean_of(self.lvalue(e[1]))
                 return [pad + f"let {x} := {x} ++ [{self.expr(e[3][0])}]"] + self.seq(rest, tail, k_end, k_break, ind)
+            if e[0] == "call" and e[2] == "extend" and len(e[3]) == 1 and self.cfg.get("extend_as_loop"):
+                # `xs.extend(ys)` = `for v in ys { xs.push(v); }` (same generated text as the loop form)
+                v = ("var", "_extend_elem", line)
+                loop = ("for", "_extend_elem", e[3][0], ([("expr", ("call", e[1], "push", [v], line), line)], None), line)
+                return self.seq([loop] + rest, tail, k_end, k_break, ind)
             if e[0] == "call" and e[2] == "extend" and len(e[3]) == 1:
                 x = self.lean_of(self.lvalue(e[1]))
                 return [pad + f"let {x} := {x} ++ {self.atom(e[3][0])}"] + self.seq(rest, tail, k_end, k_break, ind)
+            if e[0] == "call" and e[2] == "push_str" and len(e[3]) == 1:
+                x = self.lean_of(self.lvalue(e[1]))
+                if self.infer(e[1]) != "List Nat":
+                    self.fail("`push_str` only on a modelled `String`", line)
+                return [pad + f"let {x} := {x} ++ {self.atom(e[3][0])}"] + self.seq(rest, tail, k_end, k_break, ind)
+            if e[0] == "call" and e[2] == "sort" and not e[3] and self.cfg.get("sort_fn"):
+                x = self.lean_of(self.lvalue(e[1]))
+                return [pad + f"let {x} := {self.cfg['sort_fn']} {x}"] + self.seq(rest, tail, k_end, k_break, ind)
+            if e[0] == "call" and e[2] in self.cfg.get("mut_calls", {}) and len(e[3]) == 1:
+                x = self.lean_of(self.lvalue(e[1]))
+                return [pad + f"let {x} := {self.cfg['mut_calls'][e[2]]} {x} {self.atom(e[3][0])}"] + self.seq(rest, tail, k_end, k_break, ind)
             if e[0] == "call" and e[2] == "insert" and len(e[3]) == 1 and self.cfg.get("set_insert"):
                 x = self.lean_of(self.lvalue(e[1]))
                 return [pad + f"let {x} := {self.cfg['set_insert']} {x} {self.atom(e[3][0])}"] + self.seq(rest, tail, k_end, k_break, ind)
@@ -953,10 +1120,10 @@ class _Tr:
             if structured is None:
                 self.fail("`if let` block is not one of the known unit-trace side-effect shapes", line)
             var, scrut, body = structured
-            if body[1] is not None:
+            if body[1] is not None and not (body[1][0] == "if" and body[1][2][1] is None):
                 self.fail("`if let` block with a value", line)
-            if self.escapes(body):
-                self.fail("`break` / `return` inside `if let Some(..)`", line)
+            if body[1] is not None:
+                body = (body[0] + [body[1]], None)
             base = scrut
             while base[0] == "ref" or (base[0] == "call" and base[2] in ("as_ref", "as_deref", "clone") and not base[3]):
                 base = base[1]
@@ -968,6 +1135,18 @@ class _Tr:
             tup0 = None
             inner = self.opt_inner(ty)
             v = self.fresh(inner)
+            if self.escapes(body):
+                # the continuation goes into both arms
+                none_lines = self.seq(rest, tail, k_end, k_break, ind + 1)
+                self.scope = dict(saved)
+                self.scope[var] = v
+                self.vtypes[var] = inner
+                if body[0] and body[0][-1][0] in ("break", "return", "continue"):
+                    some_lines = self.seq(body[0], None, k_end, k_break, ind + 1)
+                else:
+                    some_lines = self.seq(body[0] + rest, tail, k_end, k_break, ind + 1)
+                self.scope = saved
+                return [pad + f"match {sc} with", pad + "| none =>"] + none_lines + [pad + f"| some {v} =>"] + some_lines
             self.scope[var] = v
             self.vtypes[var] = inner
             names = self.order(set(self.assigned(body)))
@@ -984,9 +1163,21 @@ class _Tr:
             if rest or tail is not None:
                 self.fail("code after `break`", st[1])
             return [pad + k_break()]
+        if k == "continue":
+            if self.k_continue is None:
+                self.fail("`continue` outside a `for`", st[1])
+            if rest or tail is not None:
+                self.fail("code after `continue`", st[1])
+            return [pad + self.k_continue]
         if k == "return":
             if rest or tail is not None:
                 self.fail("code after `return`", st[2])
+            if self.value_depth:
+                self.fail("`return` inside a `match` used as a value", st[2])
+            if self.k_continue is not None:
+                if not self.loop_return:
+                    self.fail("`return` inside a `for` whose result is not the function's result", st[2])
+                return [pad + self.expr(st[1])]
             return [pad + self.cfg["return"](self, self.expr(st[1]))]
         if k == "if":
             return self.if_lines(st, rest, tail, k_end, k_break, ind, is_tail=False)
@@ -1014,7 +1205,7 @@ class _Tr:
                 saved = dict(self.scope)
                 if is_tail:
                     r = self.seq(b[0], b[1], k_end, k_break, ind + 1)
-                elif b[0] and b[0][-1][0] in ("break", "return"):
+                elif b[0] and b[0][-1][0] in ("break", "return", "continue"):
                     r = self.seq(b[0], None, k_end, k_break, ind + 1)
                 else:
                     r = self.seq(b[0] + rest, tail, k_end, k_break, ind + 1)
@@ -1071,39 +1262,61 @@ class _Tr:
     def for_lines(self, st, rest, tail, k_end, k_break, ind):
         _, var, it, body, line = st
         pad = "  " * ind
-        while it[0] == "call" and it[2] in ("iter", "into_iter") and not it[3]:
+        while (it[0] == "call" and it[2] in ("iter", "into_iter", "as_slice") and not it[3]) or it[0] == "ref":
             it = it[1]
-        if it[0] == "ref":
-            it = it[1]
-        if it[0] != "var" or self.vtypes.get(it[1]) != "List (String × String)" or it[1] not in self.scope:
-            self.fail("`for` only over a header-list variable of the function", line)
+        try:
+            lty = self.infer(it)
+        except _Fail:
+            lty = None
+        if lty is None or not lty.startswith("List "):
+            self.fail("`for` only over a modelled list", line)
+        elem = lty[len("List "):].strip()
+        if elem.startswith("(") and elem.endswith(")"):
+            elem = elem[1:-1]
+        it_lean = self.atom(it)
         if body[1] is not None:
-            self.fail("`for` body with a value", line)
+            if body[1][0] == "if" and body[1][2][1] is None:
+                body = (body[0] + [body[1]], None)
+            else:
+                self.fail("`for` body with a value", line)
         self.loop_count += 1
         fname = f"{self.cfg['name']}Loop{self.loop_count}"
         saved, saved_h = dict(self.scope), set(self.header_vars)
-        ev = self.fresh("String × String")
+        ev = self.fresh(elem)
         self.scope[var] = ev
-        self.header_vars.add(var)
+        self.vtypes[var] = elem
+        if elem == "String × String":
+            self.header_vars.add(var)
         state = self.order(set(self.assigned(body)))
         if not state:
             self.fail("`for` loop that assigns nothing", line)
         tup = self.tuple_of(state)
         leans = [self.lean_of(x) for x in state]
-        fixed = " ".join(n for n, _ in self.cfg["params"])
+        fixed = " ".join(n for n, _ in self.cfg["params"] + self.cfg.get("loop_params", []))
         rec = f"{fname} {fixed} rest " + " ".join(leans)
+        # a `return E` inside the loop is allowed when the loop's result is the function's: `for ..; x` with state [x]
+        lr = (not rest and tail is not None and tail[0] == "var" and len(state) == 1 and state[0] == tail[1]
+              and self.k_continue is None and not self.value_depth)
+        saved_k, saved_lr = self.k_continue, self.loop_return
+        self.k_continue, self.loop_return = rec, lr
         body_lines = self.seq(body[0], None, lambda v: rec, lambda: tup, 2)
+        self.k_continue, self.loop_return = saved_k, saved_lr
         self.scope, self.header_vars = saved, saved_h
-        types = [self.vtypes[x] for x in state]
+        types = [self.vtypes[x] if not x.startswith("self.") else self.cfg["self_field_types"][x[5:]] for x in state] \
+            if any(x.startswith("self.") for x in state) else [self.vtypes[x] for x in state]
         res = types[0] if len(types) == 1 else " × ".join(f"{t}" if " " not in t else f"({t})" for t in types)
-        par = " ".join(f"({n} : {t})" for n, t in self.cfg["params"])
-        elem = "String × String"
+        par = " ".join(f"({n} : {t})" for n, t in self.cfg["params"] + self.cfg.get("loop_params", []))
+        tp = self.cfg.get("tparams", "")
         sig = " → ".join([f"List ({elem})"] + [t if " " not in t else f"({t})" for t in types] + [res])
-        aux = ["set_option linter.unusedVariables false in", f"def {fname} {par} :", f"    {sig}",
+        tm = re.fullmatch(r"\{([^:{}]+): Type\}", tp)
+        if tm:      # only the type parameters the loop mentions (the others could not be inferred at the call)
+            used = [v for v in tm.group(1).split() if re.search(r"(?<![A-Za-z0-9_])" + re.escape(v) + r"(?![A-Za-z0-9_])", par + " " + sig)]
+            tp = "{" + " ".join(used) + " : Type}" if used else ""
+        aux = ["set_option linter.unusedVariables false in", f"def {fname} {tp + ' ' if tp else ''}{par} :", f"    {sig}",
                "  | [], " + ", ".join(leans) + " => " + tup,
                f"  | {ev} :: rest, " + ", ".join(leans) + " =>"] + body_lines
         self.aux.append(aux)
-        call = f"{fname} {fixed} {self.scope[it[1]]} " + " ".join(leans)
+        call = f"{fname} {fixed} {it_lean} " + " ".join(leans)
         return [pad + f"let {tup} := {call}"] + self.seq(rest, tail, k_end, k_break, ind)
 
     def loop_lines(self, st, ind):
@@ -1189,30 +1402,30 @@ def _emit(cfg, parser, stmts, tail, fail, doc):
 _PAIR = "String × String"
 
 
-def _header_cfg(name):
+def _header_cfg(name, headers="headers", ut="unit_trace"):
     return {
         "name": name,
         "params": [("lower", "String → String"), ("name", "String"), ("value", "String")],
-        "args": {"headers": "headers"},
+        "args": {headers: "headers"}, "trace_arg": ut,
         "arg_types": [("headers", f"List ({_PAIR})")],
         "self_fields": {"name": "name", "value": "value"},
-        "mutable_args": {"headers": f"List ({_PAIR})"},
+        "mutable_args": {headers: f"List ({_PAIR})"},
         "vec_type": f"List ({_PAIR})",
         "result_type": f"List ({_PAIR})",
         "return": lambda tr, v: v,
     }
 
 
-def _text_cfg(name, with_data):
+def _text_cfg(name, with_data, data="data", ut="unit_trace"):
     return {
         "name": name,
-        "params": [],
-        "args": {"data": "data"} if with_data else {},
+        "params": [], "trace_arg": ut,
+        "args": {data: "data"} if with_data else {},
         "arg_types": [("content", "List Nat"), ("executed", "Bool")] + ([("data", "List Nat")] if with_data else []),
         "self_fields": {"content": "content", "executed": "executed"},
         "self_out": ["executed"],
         "self_field_types": {"content": "List Nat", "executed": "Bool"},
-        "arg_rust_types": {"data": "List Nat"} if with_data else {},
+        "arg_rust_types": {data: "List Nat"} if with_data else {},
         "result_type": "Bool × List Nat",
         "return": lambda tr, v: f"(executed, {v})",
     }
@@ -1222,7 +1435,7 @@ def extract_headers(read, fail):
     out = ["-- Rust -> Lean translation of whitelisted function bodies: the five header actions (tools/consts.d/w4_translate.py)"]
 
     # ---- (1) the five header actions
-    hdr = r"fn filter\(&self, (mut )?headers: Vec<Header>, (mut )?unit_trace: Option<&mut UnitTrace>\) -> Vec<Header> \{"
+    hdr0 = r"fn filter\(&self, (?:mut )?(\w+): Vec<Header>, (?:mut )?(\w+): Option<&mut UnitTrace>\) -> Vec<Header> \{"
     for mod, lean_name in [("add", "genHeaderAdd"), ("remove", "genHeaderRemove"), ("replace", "genHeaderReplace"),
                            ("override", "genHeaderOverride"), ("default", "genHeaderDefault")]:
         path = f"src/filter/header_action/header_{mod}.rs"
@@ -1233,7 +1446,8 @@ def extract_headers(read, fail):
             fail(f"{path}: the action struct no longer has the modelled fields (name[, value], id, target_hash)")
         if len(re.findall(r"\bfn \w+", src)) != 1:
             fail(f"{path}: expected exactly one function (`filter`)")
-        cfg = _header_cfg(lean_name)
+        hdr, (hname, utname) = _sig(src, path, hdr0, fail)
+        cfg = _header_cfg(lean_name, hname, utname)
         parser, stmts, tail = _translate(read, fail, path, hdr, cfg)
         out.append("")
         out += _emit(cfg, parser, stmts, tail, fail, f"`Header{mod.capitalize()}Action::filter`, translated from {path}.")
@@ -1255,9 +1469,9 @@ def extract_text(read, fail):
         fail(f"{path}: `TextFilterAction` is no longer {{Append, Prepend, Replace}}")
     if not re.search(r"Self \{\s*id,\s*action,\s*content: content\.into_bytes\(\),\s*executed: false,\s*\}", src):
         fail(f"{path}: `new` no longer starts with executed = false and the content bytes")
-    cfg0 = _text_cfg("genTextFilter", True)
-    parser, stmts, tail = _translate(
-        read, fail, path, r"pub fn filter\(&mut self, data: Vec<u8>, unit_trace: Option<&mut UnitTrace>\) -> Vec<u8> \{", cfg0)
+    thdr, (dname, utname) = _sig(src, path, r"pub fn filter\(&mut self, (?:mut )?(\w+): Vec<u8>, (?:mut )?(\w+): Option<&mut UnitTrace>\) -> Vec<u8> \{", fail)
+    cfg0 = _text_cfg("genTextFilter", True, dname, utname)
+    parser, stmts, tail = _translate(read, fail, path, thdr, cfg0)
     if stmts or tail is None or tail[0] != "match":
         fail(f"{path}: `filter` is no longer a single `match self.action`")
     _, scrut, arms, mline = tail
@@ -1268,7 +1482,7 @@ def extract_text(read, fail):
         fail(f"{path}:{mline}: arms of `match self.action` are {names}")
     for variant in ["Replace", "Append", "Prepend"]:
         arm = [a for a in arms if a[0] == "TextFilterAction::" + variant][0]
-        cfg = _text_cfg("genTextFilter" + variant, True)
+        cfg = _text_cfg("genTextFilter" + variant, True, dname, utname)
         out.append("")
         out += _emit(cfg, parser, arm[1][0], arm[1][1], fail,
                      f"`TextFilterBodyAction::filter`, arm `{variant}`: (new `executed`, returned bytes); translated from {path}.")
@@ -1466,6 +1680,232 @@ def extract_action(read, fail):
     out += _emit(cfg, parser, stmts, tail, fail,
                  "`Action::should_log_request`: (decision, new `rules_applied`); `subGet` = `LogOverride::get_log_override`; "
                  f"the unit-trace block is skipped; translated from {path}.")
+    return out
+
+
+_RUST_TYPES = {"u16": "Nat", "bool": "Bool", "Vec<u16>": "List Nat", "Option<bool>": "Option Bool"}
+
+
+def _gen_struct(read, fail, path, rust, lean, tparams, string_types, extra_types=None):
+    """a Lean structure generated from a Rust struct (fields in declaration order); `String` fields get the type variable /
+    type named by `string_types[field]`.  -> (Lean lines, struct table for the translator)"""
+    src = read(path)
+    m = re.search(r"(?:pub )?struct " + rust + r" \{\n(.*?)\n\}", src, re.S)
+    if not m:
+        fail(f"{path}: `pub struct {rust}` not found")
+    fields, lines = {}, []
+    for ln in m.group(1).split("\n"):
+        ln = ln.strip()
+        if not ln or ln.startswith("//") or ln.startswith("#["):
+            continue
+        fm = re.fullmatch(r"(?:pub )?(\w+): (.+),", ln)
+        if not fm:
+            fail(f"{path}: field line of `{rust}` not understood: `{ln}`")
+        f, ty = fm.group(1), fm.group(2)
+        if ty in _RUST_TYPES:
+            lty = _RUST_TYPES[ty]
+        elif ty in ("Option<String>", "String") and f in string_types:
+            lty = ("Option " if ty.startswith("Option") else "") + string_types[f]
+        elif extra_types and ty in extra_types:
+            lty = extra_types[ty]
+        else:
+            fail(f"{path}: field `{f}: {ty}` of `{rust}` has no modelled type")
+        fields[f] = (_camel(f), lty)
+        lines.append(f"  {_camel(f)} : {lty}")
+    head = lean.split(" ")[0]
+    out = [f"/-- `{rust}` ({path}), fields in declaration order. -/", f"structure {head} {tparams} where"] + lines
+    return out, {"lean": lean, "fields": fields}
+
+
+def extract_merge(read, fail):
+    out = ["-- Rust -> Lean translation: `Action::merge` and the loop of `Action::from_routes_rule` "
+           "(tools/consts.d/w4_translate_merge.py, translator in w4_translate.py)"]
+    path = "src/action/mod.rs"
+    src = read(path)
+    want = (r"pub struct Action \{\s*status_code_update: Option<StatusCodeUpdate>,\s*header_filters: Vec<HeaderFilterAction>,\s*"
+            r"body_filters: Vec<BodyFilterAction>,\s*(//[^\n]*\s*)*pub rule_ids: LinkedHashSet<String>,\s*(#\[[^\n]*\s*)*"
+            r"rule_traces: Vec<RuleTrace>,\s*(#\[[^\n]*\s*)*pub rules_applied: LinkedHashSet<String>,\s*log_override: Option<LogOverride>,\s*\}")
+    if not re.search(want, src):
+        fail(f"{path}: `Action` no longer has exactly the seven modelled fields")
+    ids = {"rule_id": "ι", "fallback_rule_id": "ι", "unit_id": "String", "target_hash": "String"}
+    l1, scu = _gen_struct(read, fail, "src/action/status_code_update.rs", "StatusCodeUpdate", "GenStatusCodeUpdate ι", "(ι : Type)", ids)
+    l2, lo = _gen_struct(read, fail, "src/action/log_override.rs", "LogOverride", "GenLogOverride ι", "(ι : Type)", ids)
+    out += [""] + l1 + [""] + l2
+    structs = {"StatusCodeUpdate": scu, "LogOverride": lo}
+
+    # Action::merge
+    hdr, (other,) = _sig(src, path, r"pub fn merge\(&mut self, (\w+): Self\) \{", fail)
+    ftypes = {"status_code_update": "Option (GenStatusCodeUpdate ι)", "header_filters": "List φ", "body_filters": "List β",
+              "rule_ids": "List ι", "rule_traces": "List τ", "log_override": "Option (GenLogOverride ι)"}
+    fields = list(ftypes)
+    cfg = {
+        "name": "genActionMerge", "tparams": "{ι φ β τ : Type}",
+        "params": [("insert", "List ι → ι → List ι")], "args": {},
+        "arg_types": [(_camel(f), t) for f, t in ftypes.items()] + [("o" + _camel(f)[0].upper() + _camel(f)[1:], t) for f, t in ftypes.items()],
+        "self_fields": {f: _camel(f) for f in fields}, "self_field_types": ftypes, "self_out": fields,
+        "abstract": {f"{other}.{f}": ("o" + _camel(f)[0].upper() + _camel(f)[1:], t) for f, t in ftypes.items()},
+        "structs": structs, "set_insert": "insert", "extend_as_loop": True,
+        "result_type": "Option (GenStatusCodeUpdate ι) × List φ × List β × List ι × List τ × Option (GenLogOverride ι)",
+        "return": lambda tr, v: "(" + ", ".join(_camel(f) for f in fields) + ")",
+    }
+    parser, stmts, tail = _translate(read, fail, path, hdr, cfg)
+    out.append("")
+    out += _emit(cfg, parser, stmts, tail, fail,
+                 "`Action::merge`: the six fields of `self` it may change, from those of `self` and of `other` (`o..`); "
+                 f"`insert` = `LinkedHashSet::insert`; translated from {path}.")
+
+    # the loop of Action::from_routes_rule
+    hdr, (routes, request, ut) = _sig(src, path, r"pub fn from_routes_rule\(mut (\w+): Vec<Arc<Route<Rule>>>, (\w+): &Request, "
+                                                 r"(?:mut )?(\w+): Option<&mut UnitTrace>\) -> Action \{", fail)
+    cfg = {
+        "name": "genFromRoutesRule", "tparams": "{ρ α υ : Type}",
+        "params": [("fromRouteRule", "ρ → Option α × Bool × Bool × Option υ"), ("merge", "α → α → α")],
+        "args": {routes: "routes"}, "mutable_args": {routes: "List ρ"}, "trace_arg": ut,
+        "arg_types": [("default", "α"), ("sort", "List ρ → List ρ"), ("routes", "List ρ")],
+        "self_fields": {}, "path_consts": {"Action::default": ("default", "α")},
+        "path_calls": {"Action::from_route_rule": ("fromRouteRule", ["Option α", "Bool", "Bool", "Option υ"], 1)},
+        "dropped_args": (request,), "sort_fn": "sort", "mut_calls": {"merge": "merge"},
+        "loop_params": [],
+        "result_type": "α", "return": lambda tr, v: v,
+    }
+    parser, stmts, tail = _translate(read, fail, path, hdr, cfg)
+    out.append("")
+    out += _emit(cfg, parser, stmts, tail, fail,
+                 "`Action::from_routes_rule`: `sort` = `routes.sort()`, `fromRouteRule r` = `Action::from_route_rule(r, request)`, "
+                 f"`merge` = `Action::merge`, `default` = `Action::default()`; the unit-trace blocks are skipped; translated from {path}.")
+    return out
+
+
+def _translate_prefix(read, fail, path, header_re, n_for):
+    """parse only the statements of the body up to and including the `n_for`-th `for` (the rest is not translated)"""
+    src = read(path)
+    body, first_line, lines = _function(src, path, header_re, fail)
+    try:
+        toks = _lex(body, first_line, path)
+        parser = _Parser(toks, path, lines)
+        parser.eat("{")
+        stmts, seen = [], 0
+        while seen < n_for:
+            if parser.at("}"):
+                parser.fail(f"fewer than {n_for} `for` loops at the top level of the function")
+            st = parser.statement()
+            if st[0] == "tail":
+                parser.fail("the function ends before the expected loops")
+            stmts.append(st)
+            if st[0] == "for":
+                seen += 1
+        return parser, stmts
+    except _Fail as e:
+        fail(str(e))
+
+
+def extract_select(read, fail):
+    out = ["-- Rust -> Lean translation: the selection loops of `Action::filter_headers` and `Action::create_filter_body` "
+           "(tools/consts.d/w4_translate_select.py, translator in w4_translate.py)"]
+    path = "src/action/mod.rs"
+    src = read(path)
+    ids = {"rule_id": "ι", "id": "ι"}
+    l1, rt = _gen_struct(read, fail, path, "RuleTrace", "GenRuleTrace ι", "(ι : Type)", ids)
+    l2, hfa = _gen_struct(read, fail, path, "HeaderFilterAction", "GenHeaderFilterAction φ ι", "(φ ι : Type)", ids, {"HeaderFilter": "φ"})
+    l3, bfa = _gen_struct(read, fail, path, "BodyFilterAction", "GenBodyFilterAction β ι", "(β ι : Type)", ids, {"BodyFilter": "β"})
+    out += [""] + l1 + [""] + l2 + [""] + l3
+    if not re.search(r"rule_traces: Vec<RuleTrace>,", src) or not re.search(r"header_filters: Vec<HeaderFilterAction>,", src) \
+            or not re.search(r"body_filters: Vec<BodyFilterAction>,", src) or not re.search(r"pub rules_applied: LinkedHashSet<String>,", src):
+        fail(f"{path}: `Action` no longer has the modelled list fields")
+
+    # Action::create_filter_body (whole function)
+    hdr, (c, headers) = _sig(src, path, r"pub fn create_filter_body\(&mut self, (\w+): u16, (\w+): &\[Header\]\) -> Option<FilterBodyAction> \{", fail)
+    cfg = {
+        "name": "genActionCreateFilterBody", "tparams": "{β ι κ : Type}",
+        "params": [("insert", "List ι → ι → List ι"), ("c", "Nat")], "loop_params": [],
+        "args": {c: "c"}, "arg_rust_types": {c: "Nat"},
+        "arg_types": [("newBody", "List β → κ"), ("isEmptyBody", "κ → Bool"),
+                      ("bodyFilters", "List (GenBodyFilterAction β ι)"), ("rulesApplied", "List ι")],
+        "self_fields": {"body_filters": "bodyFilters", "rules_applied": "rulesApplied"},
+        "self_field_types": {"body_filters": "List (GenBodyFilterAction β ι)", "rules_applied": "List ι"},
+        "self_out": ["rules_applied"], "set_insert": "insert", "vec_type": "List β",
+        "structs": {"BodyFilterAction": bfa},
+        "path_calls": {"FilterBodyAction::new": ("newBody", ["κ"], 1)}, "dropped_args": (headers,),
+        "extern_calls": {"is_empty": ("isEmptyBody", ["Bool"], "κ")},
+        "result_type": "Option κ × List ι", "return": lambda tr, v: f"({v}, rulesApplied)",
+    }
+    parser, stmts, tail = _translate(read, fail, path, hdr, cfg)
+    out.append("")
+    out += _emit(cfg, parser, stmts, tail, fail,
+                 "`Action::create_filter_body`: (result, new `rules_applied`); `newBody fs` = `FilterBodyAction::new(fs, headers)`, "
+                 f"`isEmptyBody` = `FilterBodyAction::is_empty`; translated from {path}.")
+
+    # Action::filter_headers: the two selection loops (the application of the selected filters and the rule-ids header are not translated)
+    hdr, (headers, c, add, ut) = _sig(src, path, r"pub fn filter_headers\(\s*&mut self,\s*(\w+): Vec<Header>,\s*(\w+): u16,\s*(\w+): bool,\s*"
+                                               r"(?:mut )?(\w+): Option<&mut UnitTrace>,?\s*\) -> Vec<Header> \{", fail)
+    parser, stmts = _translate_prefix(read, fail, path, hdr, 2)
+    lets = [st for st in stmts if st[0] == "let" and st[3][0] == "pathcall" and st[3][1] == "Vec::new"]
+    if len(lets) != 1 or [st[0] for st in stmts] != ["let", "for", "for"]:
+        fail(f"{path}: `filter_headers` no longer starts with `let mut filters = Vec::new();` and the two selection loops")
+    cfg = {
+        "name": "genActionSelectHeaderFilters", "tparams": "{φ ι : Type}",
+        "params": [("insert", "List ι → ι → List ι"), ("c", "Nat")], "loop_params": [],
+        "args": {c: "c"}, "arg_rust_types": {c: "Nat"}, "trace_arg": ut,
+        "arg_types": [("ruleTraces", "List (GenRuleTrace ι)"), ("headerFilters", "List (GenHeaderFilterAction φ ι)"),
+                      ("rulesApplied", "List ι")],
+        "self_fields": {"rule_traces": "ruleTraces", "header_filters": "headerFilters", "rules_applied": "rulesApplied"},
+        "self_field_types": {"rule_traces": "List (GenRuleTrace ι)", "header_filters": "List (GenHeaderFilterAction φ ι)",
+                             "rules_applied": "List ι"},
+        "self_out": ["rules_applied"], "set_insert": "insert", "vec_type": "List φ",
+        "structs": {"RuleTrace": rt, "HeaderFilterAction": hfa},
+        "result_type": "List φ × List ι", "return": lambda tr, v: f"({v}, rulesApplied)",
+    }
+    out.append("")
+    out += _emit(cfg, parser, stmts, ("var", lets[0][1], lets[0][4]), fail,
+                 "`Action::filter_headers`, the two selection loops: (filters handed to `FilterHeaderAction::new`, new `rules_applied`); "
+                 f"the application of the filters and the `X-RedirectionIo-RuleIds` header are not translated; translated from {path}.")
+    return out
+
+
+def extract_visitor(read, fail):
+    out = ["-- Rust -> Lean translation: `enter` / `first` of the three HTML body visitors "
+           "(tools/consts.d/w4_translate_visitor.py, translator in w4_translate.py)"]
+    B = "List Nat"
+    for mod, struct, lean, has_buf in [("append", "BodyAppend", "genBodyAppend", False), ("prepend", "BodyPrepend", "genBodyPrepend", True),
+                                       ("replace", "BodyReplace", "genBodyReplace", True)]:
+        path = f"src/filter/html_body_action/body_{mod}.rs"
+        src = read(path)
+        want = (r"pub struct " + struct + r" \{\s*element_tree: Vec<String>,\s*position: usize,\s*css_selector: Option<String>,\s*"
+                r"content: String,\s*inner_content: String,\s*" + (r"is_buffering: bool,\s*" if has_buf else "") +
+                r"id: Option<String>,\s*target_hash: Option<String>,\s*\}")
+        if not re.search(want, src):
+            fail(f"{path}: `{struct}` no longer has the modelled fields")
+        if not re.search(r"position: 0,", src) or (has_buf and not re.search(r"is_buffering: false,", src)):
+            fail(f"{path}: `new` no longer starts at position 0" + (" / is_buffering false" if has_buf else ""))
+        hdr, names = _sig(src, path, r"pub fn enter\(&mut self, (?:mut )?(\w+): String(?:, (?:mut )?(\w+): Option<&mut UnitTrace>)?\) "
+                                    r"-> \(Option<String>, Option<String>, bool, String\) \{", fail)
+        data, ut = names[0], names[1]
+        sf = {"element_tree": "elementTree", "position": "position", "css_selector": "cssSelector", "content": "content"}
+        sft = {"element_tree": f"List ({B})", "position": "Nat", "css_selector": f"Option ({B})", "content": B}
+        outs = ["position"]
+        if has_buf:
+            sf["is_buffering"], sft["is_buffering"] = "isBuffering", "Bool"
+            outs.append("is_buffering")
+        cfg = {
+            "name": lean + "Enter", "params": [], "args": {data: "data"}, "mutable_args": {data: B}, "trace_arg": ut,
+            "arg_types": [(sf[f], sft[f]) for f in sf] + [("data", B)],
+            "self_fields": sf, "self_field_types": sft, "self_out": outs,
+            "none_type": f"Option ({B})", "unwrap_default": {f"Option ({B})": "[]"}, "index_default": {f"List ({B})": "[]"},
+            "result_type": f"(Option ({B}) × Option ({B}) × Bool × {B}) × " + ("Nat × Bool" if has_buf else "Nat"),
+            "return": (lambda tr, v: f"({v}, position, isBuffering)") if has_buf else (lambda tr, v: f"({v}, position)"),
+        }
+        parser, stmts, tail = _translate(read, fail, path, hdr, cfg)
+        out.append("")
+        out += _emit(cfg, parser, stmts, tail, fail,
+                     f"`{struct}::enter`: ((next_enter, next_leave, start buffering, data), new `position`" +
+                     (", new `is_buffering`" if has_buf else "") + f"); strings as bytes, `v[i]` as `(v[i]?).getD []`; translated from {path}.")
+        hdr, _ = _sig(src, path, r"pub fn first\(&self\) -> String \{", fail)
+        cfg = {"name": lean + "First", "params": [], "args": {}, "arg_types": [("elementTree", f"List ({B})")],
+               "self_fields": {"element_tree": "elementTree"}, "self_field_types": {"element_tree": f"List ({B})"},
+               "index_default": {f"List ({B})": "[]"}, "result_type": B, "return": lambda tr, v: v}
+        parser, stmts, tail = _translate(read, fail, path, hdr, cfg)
+        out.append("")
+        out += _emit(cfg, parser, stmts, tail, fail, f"`{struct}::first`; translated from {path}.")
     return out
 
 
